@@ -52,9 +52,13 @@ def _confirm(prop, name, ob, fn):
         return dict(reproduced=None, path=fn, detail="replay program timed out")
     with open(fn, "a") as f:
         f.write("# native replay: " + " ".join(args) + "\n" + r.stdout[-6000:] + "\n")
-    m = re.search(r"^FAIL .*$", r.stdout, re.M)
-    if r.returncode == 1 and m:
-        return dict(reproduced=True, path=fn, detail=m.group(0)[:500])
+    accept = {"C05": ("C05", "C07"), "C07": ("C07", "C05"), "C08": ("C08",), "C17": ("C17",), "C18": ("C18", "C07", "C05")}.get(prop, (prop,))
+    ms = list(re.finditer(r"^FAIL (C\d\d(?:/C\d\d)*) .*$", r.stdout, re.M))
+    if r.returncode == 1 and ms:
+        for m in ms:
+            if any(l in accept for l in m.group(1).split("/")):
+                return dict(reproduced=True, path=fn, detail=m.group(0)[:500])
+        return dict(reproduced=False, path=fn, detail="native families fail, but for another property: " + ms[0].group(0)[:300])
     if r.returncode in (-6, 134, -11, 139):
         return dict(reproduced=True, path=fn, detail="the native run aborted (allocation refused / memory exhausted) -- an unbounded allocation")
     if r.returncode == 0:
